@@ -46,6 +46,11 @@ class T:
         return T("union", alts=list(alts))
 
     @staticmethod
+    def lazy_union(*alts):
+        """Like union, but the alternative is chosen only when an operation needs it (VLazy)."""
+        return T("lazy_union", alts=list(alts))
+
+    @staticmethod
     def obj(cls, fields=None, init=None):
         """fields: name -> T ; init(ctx, obj) may assume a class invariant."""
         return T("obj", cls=cls, fields=fields or {}, init=init)
@@ -107,6 +112,15 @@ def mk(ctx, t: T, hint: str, fixed_name=False) -> V:
     if k == "union":
         i = ctx.choose(len(t.alts), f"type:{hint}")
         return mk(ctx, t.alts[i], hint, fixed_name)
+    if k == "lazy_union":
+        from .values import VLazy
+        tag = z3.Int(name(hint + ".alt"))
+        n = len(t.alts)
+        ctx.assume(z3.And(tag >= 0, tag < n))
+        alts = []
+        for i, a in enumerate(t.alts):
+            alts.append((tag == i, (lambda c, _a=a, _i=i: mk(c, _a, f"{hint}.v{_i}", True))))
+        return VLazy(alts, hint)
     if k == "tuple":
         return VTuple([mk(ctx, it, f"{hint}.{j}", fixed_name) for j, it in enumerate(t.items)])
     if k == "opaque":
